@@ -135,7 +135,9 @@ class HistoryRunner:
                 self.dead.append(q)
                 self.info["released"] += 1
             elif k == "epr":
-                _, role, kind, n = op
+                _, role, kind, n = op[:4]
+                bells = op[4] if len(op) > 4 else [0] * n
+                minfid = op[5] if len(op) > 5 else False
                 if self.handles:
                     self.info["epr_with_other"] = True
                 api = getattr(self.sock, "create_keep" if role == "create" else "recv_keep")
@@ -150,11 +152,15 @@ class HistoryRunner:
 
                     api(number=n, sequential=True, post_routine=post)
                 else:
-                    qs = api(number=n)
+                    if minfid:
+                        # retry loop of the SDK; the scripted link reports goodness 0, so the first attempt is accepted
+                        qs = api(number=n, min_fidelity_all_at_end=80, max_tries=3)
+                    else:
+                        qs = api(number=n)
                     self.handles.extend(qs)
                 if any(ids_before[id(h)] != h.qubit_id for h in self.handles if id(h) in ids_before):
                     self.info["relocation"] = True
-                self.stack.expect(role, "K", n)
+                self.stack.expect(role, "K", n, [{"bell_state": b} for b in bells])
             elif k == "eprctx":
                 _, role, n = op
                 if self.handles:
@@ -266,8 +272,8 @@ def make_machine(ctx: Ctx, stt):
             self.r.apply(["free", h])
 
         @precondition(lambda self: self.r is not None and self.r.room() >= 1)
-        @rule(role=st.sampled_from(["create", "recv"]), kind=st.sampled_from(["plain", "plain", "seq"]), n=st.integers(1, 3))
-        def epr(self, role, kind, n):
+        @rule(role=st.sampled_from(["create", "recv"]), kind=st.sampled_from(["plain", "plain", "seq"]), n=st.integers(1, 3), bells=st.lists(st.integers(0, 3), min_size=3, max_size=3), minfid=st.integers(0, 5))
+        def epr(self, role, kind, n, bells, minfid):
             if kind == "seq" and KF_SEQ in open_keys:
                 stt.excluded[KF_SEQ] += 1
                 kind = "plain"
@@ -277,7 +283,7 @@ def make_machine(ctx: Ctx, stt):
             if KF_NV_ASSERT in open_keys and self.r.config["hardware"] == "nv" and kind == "plain" and n > 1 and self.r.handles:
                 stt.excluded[KF_NV_ASSERT] += 1
                 return
-            self.r.apply(["epr", role, kind, n])
+            self.r.apply(["epr", role, kind, n, bells[:n], minfid == 0 and kind == "plain"])
 
         @precondition(lambda self: self.r is not None and self.r.room() >= 1 and KF_CTX not in open_keys)
         @rule(role=st.sampled_from(["create", "recv"]), n=st.integers(1, 3))
